@@ -27,3 +27,4 @@ def rules(ctx):
     S.relocate_tree_rules(ctx)
     S.relocation_content_rules(ctx)
     S.oldest_search_rules(ctx)
+    S.round4_residue_rules(ctx)
